@@ -392,7 +392,10 @@ _INT_W = {"u8": 8, "u16": 16, "u32": 32, "u64": 64, "usize": 64, "u128": 128,
           "i8": 8, "i16": 16, "i32": 32, "i64": 64, "isize": 64, "i128": 128}
 
 
-@model(r"^<(\w+) as TryFrom<(\w+)>>::try_from$|^<(\w+) as TryInto<(\w+)>>::try_into$")
+_INT_RX = r"(?:u8|u16|u32|u64|usize|u128|i8|i16|i32|i64|isize|i128)"
+
+
+@model(r"^<" + _INT_RX + r" as TryFrom<" + _INT_RX + r">>::try_from$|^<" + _INT_RX + r" as TryInto<" + _INT_RX + r">>::try_into$")
 def m_int_try_from(eng, st, callee, a, ty):
     """checked integer conversion: Ok(value) iff it fits the target type"""
     m = re.match(r"^<(\w+) as TryFrom<(\w+)>>::try_from$", callee)
